@@ -1,4 +1,4 @@
-use super::evaluator_numeric::value_as_f64;
+use super::evaluator_numeric::{compare_int_float, compare_numbers, value_as_f64};
 use super::evaluator_temporal_math::{compare_time_of_day, compare_time_with_offset};
 use super::evaluator_temporal_parse::parse_temporal_string;
 use super::{TemporalValue, Value};
@@ -33,7 +33,7 @@ where
     if l.is_nan() || r.is_nan() {
         return Value::Bool(false);
     }
-    l.partial_cmp(&r)
+    compare_numbers(left, right)
         .map(|ord| Value::Bool(cmp(ord)))
         .unwrap_or(Value::Null)
 }
@@ -140,8 +140,15 @@ pub(super) fn order_compare_non_null(left: &Value, right: &Value) -> Option<Orde
         (Value::Bool(l), Value::Bool(r)) => Some(l.cmp(r)),
         (Value::Int(l), Value::Int(r)) => Some(l.cmp(r)),
         (Value::Float(l), Value::Float(r)) => Some(compare_f64_with_nan(*l, *r)),
-        (Value::Int(l), Value::Float(r)) => Some(compare_f64_with_nan(*l as f64, *r)),
-        (Value::Float(l), Value::Int(r)) => Some(compare_f64_with_nan(*l, *r as f64)),
+        // NaN sorts after every other number; everything else compares exactly.
+        (Value::Int(l), Value::Float(r)) => {
+            Some(compare_int_float(*l, *r).unwrap_or(Ordering::Less))
+        }
+        (Value::Float(l), Value::Int(r)) => Some(
+            compare_int_float(*r, *l)
+                .map(|ord| ord.reverse())
+                .unwrap_or(Ordering::Greater),
+        ),
         (Value::String(l), Value::String(r)) => Some(compare_strings_with_temporal(l, r)),
         _ => {
             let rank_cmp = value_order_rank(left).cmp(&value_order_rank(right));
